@@ -48,7 +48,7 @@ func (in *Interp) strLen(s *Str) *Term {
 func (in *Interp) ghostLen(s *Str) *Term {
 	g := s.G
 	switch g.Ctor {
-	case "b64":
+	case "b64", "b64alt":
 		n := in.strLen(g.Args[0].(*Str))
 		return UDiv(Add(Mul(n, BVu(64, 4)), BVu(64, 2)), BVu(64, 3))
 	case "sha":
